@@ -9,8 +9,8 @@ import MqttVerif.Props.C07
 * (3) `C06_unmatched_ack_is_error_noop_v3` / `_v5`
 * (4) `C06_resume_resends_client_v3` / `_client_v5` / `_server`; `C06_stored_publish_regulated_partial`
   (the invariant itself is stated as `C06_stored_publish_regulated_full`, not proved)
-* (5) `C06_no_session_clears_connack` / `_connect`
-* witnesses: `C06Ex.finding20_server_connack_sp_false_still_resends`, `C06Ex.pubrec_0x10_releases_id`
+* (5) `C06_no_session_clears_connack` / `_connect`, `C06_new_session_server`
+* witnesses: `C06Ex.finding20_server_connack_sp_false_starts_new_session`, `C06Ex.pubrec_0x10_releases_id`
 `ParseOk` (from C07): the parser returns packets of the type it was invoked for.
 -/
 namespace MqttVerif.Conn
@@ -130,10 +130,10 @@ theorem C06_accepted_publish_not_dropped (cfg : Cfg) (s : St) (p : Pkt) (id : Na
 
 /-! ## (2) stored until acknowledged: every way an entry leaves the store in one call -/
 
-/-- the call re-establishes a connection on a present session: a CONNACK(0) was sent (server) or
-    a CONNACK(0, session present) was received (client) -/
+/-- the call re-establishes a connection on a present session: a CONNACK(0, session present) was
+    sent (server) or received (client) -/
 def Resumes (cfg : Cfg) (s : St) (op : Op) : Prop :=
-  (∃ p, op = .send p ∧ p.kind = .connack ∧ p.rc = some 0 ∧ p ∈ sends (step cfg s op).ev) ∨
+  (∃ p, op = .send p ∧ p.kind = .connack ∧ p.rc = some 0 ∧ p.sp = true ∧ p ∈ sends (step cfg s op).ev) ∨
   (∃ p, recvs (step cfg s op).ev = [p] ∧ p.kind = .connack ∧ p.rc = some 0 ∧ p.sp = true)
 
 /-- the ways an entry with identifier `id` and packet `q` leaves the store in the call `op` -/
@@ -155,6 +155,10 @@ inductive Leaves (cfg : Cfg) (s : St) (op : Op) (id : Nat) (q : Pkt) : Prop
   /-- … or CONNECT(clean) sent -/
   | connectCleanSent (p : Pkt) : op = .send p → p.kind = .connect → p.clean = true →
       (step cfg s op).s.store = [] → Leaves cfg s op id q
+  /-- … or new session started by the CONNACK we sent (fix 10ee029): CONNACK(success) with
+      session present = false accepted for sending -/
+  | connackNoSessionSent (p : Pkt) : op = .send p → p.kind = .connack → p.rc = some 0 → p.sp = false →
+      (step cfg s op).s.store = [] → Leaves cfg s op id q
   /-- (iv) non-persistent close -/
   | closedNonPersistent : op = .closed → s.needStore = false → (step cfg s op).s.store = [] → Leaves cfg s op id q
   /-- (v) the refusal cleanup of a v5.0 PUBLISH with this identifier (an error event is pushed) -/
@@ -170,9 +174,12 @@ theorem C06_stored_until_acked (cfg : Cfg) (s : St) (op : Op) (hwf : OpWf op) (i
     (h1 : (id, q) ∈ s.store) (h2 : (id, q) ∉ (step cfg s op).s.store) : Leaves cfg s op id q := by
   cases op with
   | send p =>
-    rcases send_leaves { cfg := cfg, s := s } p h1 h2 with ⟨a, b, d⟩ | ⟨a, b, d, e⟩ | ⟨a, b, d, e⟩
+    rcases send_leaves { cfg := cfg, s := s } p h1 h2 with
+      ⟨a, b, d⟩ | ⟨a, b, hsp, d, e⟩ | ⟨a, b, d, e⟩ | ⟨a, b, hsp, d⟩
+    rotate_right
+    · exact .connackNoSessionSent p rfl a b hsp d
     · exact .connectCleanSent p rfl a b d
-    · refine .oversizeOnResume (.inl ⟨p, rfl, a, b, d⟩) ?_
+    · refine .oversizeOnResume (.inl ⟨p, rfl, a, b, hsp, d⟩) ?_
       have : (id, q) ∉ fits cfg.pw (step cfg s (.send p)).s.mpsSend s.store := by
         have := e ▸ h2; exact this
       rw [mem_fits] at this
@@ -346,11 +353,13 @@ theorem C06_resume_resends_client_v5 {cfg : Cfg} {s : St} {inp : List Nat} {pb' 
     simp
   · exact absurd hm hsei
 
-/-- **C06 (4)**, server: a successful CONNACK accepted for sending: the `RequestSendPacket` events
-    are the CONNACK itself followed by the stored packets that fit, in store order — nothing else
-    before them.  (Whatever `session_present` says: see `finding20_…` below.) -/
+/-- **C06 (4)**, server: a successful CONNACK with session present accepted for sending: the
+    `RequestSendPacket` events are the CONNACK itself followed by the stored packets that fit, in
+    store order — nothing else before them.  (With session_present = false the CONNACK starts a
+    new session instead — fix 10ee029, see C10 and `C06_new_session_server` below.) -/
 theorem C06_resume_resends_server (cfg : Cfg) (s : St) (p : Pkt)
     (hk : p.kind = .connack) (hv : p.ver = s.ver) (hrole : cfg.role ≠ .client) (hrc : p.rc = some 0)
+    (hsp : p.sp = true)
     (hst : s.status = .connecting) (hsz : p.ver = 4 ∨ p.sz cfg.pw ≤ s.mpsSend) :
     sends (step cfg s (.send p)).ev = p :: (fits cfg.pw s.mpsSend s.store).map (·.2) ∧
     (step cfg s (.send p)).s.store = fits cfg.pw s.mpsSend s.store := by
@@ -358,15 +367,45 @@ theorem C06_resume_resends_server (cfg : Cfg) (s : St) (p : Pkt)
     cases h : cfg.role <;> simp_all [roleMaySend]
   simp only [step, send, processSend, hk, hv, hr]
   by_cases h4 : p.ver = 4
-  · simp only [h4, ← hv, psV3Connack, hst, hrc]
+  · simp only [h4, ← hv, psV3Connack, hst, hrc, hsp]
     simp [sendStored_sends, sendStored_store]
   · have hs : sizeOk { cfg := cfg, s := s } p = true := by
       rcases hsz with h | h
       · exact absurd h h4
       · simp [sizeOk]; omega
-    simp only [h4, ← hv, psV5Connack, hst, hrc, hs]
+    simp only [h4, ← hv, psV5Connack, hst, hrc, hs, hsp]
     simp [sendStored_sends, sendStored_store, propsFold_frame (fun c => sends c.ev),
       propsFold_frame (fun c => c.s.store), propsFold_frame (fun c => c.s.mpsSend), propsFold_frame (fun c => c.cfg)]
+
+/-- **C06 (5)**, server: a successful CONNACK with session present = false accepted for sending
+    starts a new session (fix 10ee029): the only `RequestSendPacket` event is the CONNACK itself —
+    no stored packet is requested for sending — and the store is emptied, the wait sets are
+    emptied and every packet identifier is freed. -/
+theorem C06_new_session_server (cfg : Cfg) (s : St) (p : Pkt)
+    (hk : p.kind = .connack) (hv : p.ver = s.ver) (hrole : cfg.role ≠ .client) (hrc : p.rc = some 0)
+    (hsp : p.sp = false)
+    (hst : s.status = .connecting) (hsz : p.ver = 4 ∨ p.sz cfg.pw ≤ s.mpsSend) :
+    sends (step cfg s (.send p)).ev = [p] ∧ Cleared (step cfg s (.send p)).s := by
+  have hr : roleMaySend cfg.role p = true := by
+    cases h : cfg.role <;> simp_all [roleMaySend]
+  simp only [step, send, processSend, hk, hv, hr]
+  by_cases h4 : p.ver = 4
+  · simp only [h4, ← hv, psV3Connack, hst, hrc, hsp]
+    simp only [ne_eq, not_true_eq_false, if_false, Bool.not_true, Bool.false_eq_true, if_true]
+    refine ⟨by simp [clearStoreRelated], ?_⟩
+    exact cleared_of_clear
+      (c := { cfg := cfg, s := { s with status := .connected }, ev := [.send p none] })
+      (by simp [clearStoreRelated]) (by simp [clearStoreRelated]) (by simp [clearStoreRelated])
+      (by simp [clearStoreRelated]) (by simp [clearStoreRelated])
+  · have hs : sizeOk { cfg := cfg, s := s } p = true := by
+      rcases hsz with h | h
+      · exact absurd h h4
+      · simp [sizeOk]; omega
+    simp only [h4, ← hv, psV5Connack, hst, hrc, hs, hsp]
+    simp only [ne_eq, not_true_eq_false, if_false, Bool.not_true, Bool.false_eq_true, if_true]
+    refine ⟨by simp [clearStoreRelated, propsFold_frame (fun c => sends c.ev)], ?_⟩
+    refine cleared_of_clear (c := propsFold connackSendProp { cfg := cfg, s := s } p.props)
+      ?_ ?_ ?_ ?_ ?_ <;> simp [clearStoreRelated]
 
 /-- what the store copy of a v5.0 PUBLISH looks like when `send` creates it (`psV5Publish`): DUP
     set, no Topic Alias property, topic taken from the packet or — for an alias-only packet —
@@ -396,17 +435,22 @@ namespace C06Ex
 def pidUsed1 (pw : Nat) : Alloc.A := (Alloc.useValue (Alloc.new 1 (256 ^ pw - 1) (256 ^ pw - 1)) 1).2
 def pub4 : Pkt := { ver := 4, kind := .publish, qos := 1, pid := some 1, dup := true, topic := [97], size := 7 }
 
-/-- (a) DESIGN finding #20 is real on the current model: a server that SENDS
-    CONNACK(Accepted, session_present = false) still resends the store (`psV3Connack` ignores
-    `p.sp`), and keeps it. -/
+/-- (a) DESIGN finding #20 is fixed on the current model (fix 10ee029): a server that SENDS
+    CONNACK(Accepted, session_present = false) no longer resends the store — only the CONNACK is
+    requested for sending and the store is emptied (`psV3Connack` honours `p.sp`). -/
 def cfgS : Cfg := ⟨.server, 2⟩
 def cfgC : Cfg := ⟨.client, 2⟩
 def sSrv : St :=
   { St.init cfgS 4 with status := .connecting, needStore := true, store := [(1, pub4)], puback := [1], pidMan := pidUsed1 2 }
 def connackNoSession : Pkt := { ver := 4, kind := .connack, rc := some 0, sp := false, size := 4 }
-theorem finding20_server_connack_sp_false_still_resends :
-    (step cfgS sSrv (.send connackNoSession)).ev = [.send connackNoSession none, .send pub4 none] ∧
-    (step cfgS sSrv (.send connackNoSession)).s.store = [(1, pub4)] := by decide
+theorem finding20_server_connack_sp_false_starts_new_session :
+    (step cfgS sSrv (.send connackNoSession)).ev = [.send connackNoSession none] ∧
+    (step cfgS sSrv (.send connackNoSession)).s.store = [] := by decide
+/-- … while with session_present = true it resends the store and keeps it -/
+def connackSession : Pkt := { ver := 4, kind := .connack, rc := some 0, sp := true, size := 4 }
+theorem server_connack_sp_true_resends :
+    (step cfgS sSrv (.send connackSession)).ev = [.send connackSession none, .send pub4 none] ∧
+    (step cfgS sSrv (.send connackSession)).s.store = [(1, pub4)] := by decide
 
 /-- (b) a v5.0 PUBREC with the *success* reason code 0x10 (No matching subscribers) is treated as
     a failure (`success := rc = none ∨ rc = some 0`): the exchange is abandoned — identifier
@@ -455,8 +499,11 @@ example := C06_unmatched_ack_is_error_noop_v3 parseAck (deliversAck .connected [
 -- (4) resume
 example := C06_resume_resends_client_v3 parseAck (deliversConnack [1]) (by decide) rfl rfl rfl rfl (by decide)
 example : sends (step cfgC (sC4 .connecting [1]) (.recv [0x20, 2, 1, 0] parseAck)).ev = [pub4] := by decide
-example := C06_resume_resends_server cfgS sSrv connackNoSession rfl rfl (by decide) rfl rfl (.inl rfl)
+example := C06_resume_resends_server cfgS sSrv connackSession rfl rfl (by decide) rfl rfl rfl (.inl rfl)
 -- (5) no session
+example := C06_new_session_server cfgS sSrv connackNoSession rfl rfl (by decide) rfl rfl rfl (.inl rfl)
+-- (2) … and that CONNACK removes the entry: hypotheses hold, cause "new session by the CONNACK we sent"
+example := C06_stored_until_acked cfgS sSrv (.send connackNoSession) trivial 1 pub4 (by decide) (by decide)
 example := C06_no_session_clears_connect cfgC (sC4 .disconnected [1]) { ver := 4, kind := .connect, clean := true }
   rfl rfl (by decide) rfl rfl (.inl rfl)
 
